@@ -307,6 +307,12 @@ func (fr *Frame) loopHead(l *Loop, st *State) {
 			ev.at = l.header
 			l.decr0 = append(l.decr0, fc.sc.Define("variant", fr.safeEvalInt(ev, c)))
 		}
+		l.incr0 = nil
+		for _, c := range l.spec.ClausesOf("increases") {
+			ev := fr.evalCtx(st, fr.entry)
+			ev.at = l.header
+			l.incr0 = append(l.incr0, fc.sc.Define("progress", fr.safeEvalInt(ev, c)))
+		}
 	}
 }
 
@@ -346,6 +352,13 @@ func (fr *Frame) loopBack(l *Loop, from *ssa.BasicBlock, cond *Term, st *State) 
 			ev.at = l.header
 			d := fr.safeEvalInt(ev, c)
 			fc.oblige(bst, "decreases", fr.path+lname, And(Le(IntLit(0), l.decr0[i]), Lt(d, l.decr0[i])), pos, "loop variant decreases: "+c.Text)
+		}
+		// progress measure: every trip round the loop strictly increases the expression (no idle spinning)
+		for i, c := range l.spec.ClausesOf("increases") {
+			ev := fr.evalCtx(bst, fr.entry)
+			ev.at = l.header
+			d := fr.safeEvalInt(ev, c)
+			fc.oblige(bst, "increases", fr.path+lname, Gt(d, l.incr0[i]), pos, "every iteration makes progress: "+c.Text+" strictly increases")
 		}
 	}
 }
